@@ -137,6 +137,7 @@ class RealSource:
         self.values = {} if values is None else values      # name -> numpy object array of Fractions / Fraction
         self.zero_prob = zero_prob
         self.constraints = {}
+        self.partial = {}     # name -> {idx tuple: Fraction}: entries fixed by a counter-model
 
     def size(self, a):
         return self.N[a]
@@ -156,8 +157,9 @@ class RealSource:
         shape = tuple(int(s) for s in shape)
         if name not in self.values:
             a = real_np.empty(shape, dtype=object)
+            fixed = self.partial.get(name, {})
             for idx in itertools.product(*[range(s) for s in shape]):
-                a[idx] = self._rand(name)
+                a[idx] = fixed[idx] if idx in fixed else self._rand(name)
             self.values[name] = a
         a = self.values[name]
         assert a.shape == shape, (name, a.shape, shape)
@@ -165,7 +167,8 @@ class RealSource:
 
     def scalar(self, name):
         if name not in self.values:
-            self.values[name] = self._rand(name)
+            fixed = self.partial.get(name, {})
+            self.values[name] = fixed[()] if () in fixed else self._rand(name)
         return float(self.values[name])
 
     @property
@@ -176,6 +179,10 @@ class RealSource:
 def increasing_faces(src, name, n, first_nonneg=False, upper=None):
     """face positions for the concrete source: strictly increasing dyadic rationals"""
     if name in src.values:
+        return
+    fixed = getattr(src, 'partial', {}).get(name)
+    if fixed:
+        src.values[name] = _faces_through(fixed, n, first_nonneg, upper)
         return
     r = src.rng
     x = Fraction(r.randint(0, 3), 2) if first_nonneg else Fraction(r.randint(-6, 6), 2)
@@ -194,6 +201,33 @@ def increasing_faces(src, name, n, first_nonneg=False, upper=None):
     for i, v in enumerate(vals):
         a[i] = v
     src.values[name] = a
+
+
+def _faces_through(fixed, n, first_nonneg, upper):
+    """strictly increasing face positions passing through the points fixed by a counter-model"""
+    pts = sorted((k[0], v) for k, v in fixed.items() if 0 <= k[0] <= n)
+    a = real_np.empty((n + 1,), dtype=object)
+    for i in range(n + 1):
+        lo = [(k, v) for k, v in pts if k <= i]
+        hi = [(k, v) for k, v in pts if k >= i]
+        if lo and lo[-1][0] == i:
+            a[i] = lo[-1][1]
+        elif lo and hi:
+            (k0, v0), (k1, v1) = lo[-1], hi[0]
+            a[i] = v0 + (v1 - v0) * Fraction(i - k0, k1 - k0)
+        elif hi:
+            k1, v1 = hi[0]
+            if first_nonneg or upper is not None:
+                a[i] = v1 * Fraction(i + 1, k1 + 1) if v1 > 0 else v1 - (k1 - i)
+            else:
+                a[i] = v1 - (k1 - i)
+        else:
+            k0, v0 = lo[-1]
+            if upper is not None:
+                a[i] = v0 + (Fraction(upper) - v0) * Fraction(i - k0, n - k0 + 1)
+            else:
+                a[i] = v0 + (i - k0)
+    return a
 
 
 def make_mesh(src, grid, uniform=False):
